@@ -322,6 +322,22 @@ def _formulas(ctx, repo):
     ctx.check(got == "max(concat([1], list(map(lambda l: max(concat([0], l)), crossing_trials))))", R, f, got,
               "requirement = maximum over crossings (at least 1)", "crossing requirement is `%s`" % got, r[0])
 
+    # the size each crossing is measured against: POST_PREAMBLE aligns all crossings after the unified preamble, so every
+    # crossing runs for the *largest* crossing size; otherwise each crossing is measured against its own size
+    brs = [s for s in f.node.body if isinstance(s, ast.If) and "POST_PREAMBLE" in ast.unparse(s.test)]
+    ctx.require(len(brs) == 1 and brs[0].orelse, "_trials_per_sample_for_crossing: alignment split not found")
+    def _ct(stmts):
+        a = [x for x in stmts if isinstance(x, ast.Assign) and dotted(x.targets[0]) == "crossing_trials"]
+        return str(sym_at(sn, a[0], a[0].value)) if len(a) == 1 else None
+    post, other = _ct(brs[0].body), _ct(brs[0].orelse)
+    want_post = "list(map(lambda c: list(map(lambda f: self.__trials_required_for_crossing(f, max(map(lambda c: self.crossing_size(c), self.crossings))), c)), self.crossings))"
+    want_other = "list(map(lambda c: list(map(lambda f: self.__trials_required_for_crossing(f, c[1]), c[0])), zip(self.crossings, map(lambda c: self.crossing_size(c), self.crossings))))"
+    ctx.check(ast.unparse(brs[0].test) == "self.alignment == AlignmentMode.POST_PREAMBLE" and post == want_post, R, f, "POST_PREAMBLE requirement",
+              "POST_PREAMBLE: every crossing is measured against the largest crossing size (all crossings start after the unified preamble)",
+              "under POST_PREAMBLE the per-crossing requirement is `%s`, documented: unified preamble + the largest crossing size" % post, brs[0])
+    ctx.check(other == want_other, R, f, "per-crossing requirement", "otherwise each crossing is measured against its own size, paired by position",
+              "the per-crossing requirement is `%s`" % other, brs[0])
+
     # MinimumTrials merge and rounding
     f = ctx.fn("constraint:MinimumTrials.apply")
     sts = [s for s in statements(f.node) if isinstance(s, ast.Assign) and dotted(s.targets[0]) == "block.min_trials"]
